@@ -1,0 +1,44 @@
+//go:build verif
+
+package traceroute
+
+import (
+	"context"
+	"net/netip"
+
+	"github.com/DataDog/datadog-traceroute/publicip"
+	"github.com/DataDog/datadog-traceroute/result"
+)
+
+// VerifRunOnceFn is the type of the per-run function.
+type VerifRunOnceFn = func(ctx context.Context, params TracerouteParams, destinationPort int) (*result.TracerouteRun, error)
+
+// VerifSetRunOnce replaces the per-run function and returns a restore function.
+func VerifSetRunOnce(fn VerifRunOnceFn) (restore func()) {
+	old := runTracerouteOnceFn
+	runTracerouteOnceFn = fn
+	return func() { runTracerouteOnceFn = old }
+}
+
+// VerifRunTracerouteOnce exposes the real per-run function.
+func VerifRunTracerouteOnce(ctx context.Context, params TracerouteParams, destinationPort int) (*result.TracerouteRun, error) {
+	return runTracerouteOnce(ctx, params, destinationPort)
+}
+
+// VerifRunE2eProbeOnce exposes runE2eProbeOnce.
+func VerifRunE2eProbeOnce(ctx context.Context, params TracerouteParams, destinationPort int) (float64, error) {
+	return runE2eProbeOnce(ctx, params, destinationPort)
+}
+
+// VerifPerformTCPFallback exposes performTCPFallback.
+func VerifPerformTCPFallback(m TCPMethod, doSyn, doSack, doSynSocket func() (*result.TracerouteRun, error)) (*result.TracerouteRun, error) {
+	return performTCPFallback(m, doSyn, doSack, doSynSocket)
+}
+
+// VerifParseTarget exposes parseTarget.
+func VerifParseTarget(raw string, defaultPort int, wantIPv6 bool) (netip.AddrPort, error) {
+	return parseTarget(raw, defaultPort, wantIPv6)
+}
+
+// VerifNewTraceroute builds a Traceroute with the given public-IP fetcher.
+func VerifNewTraceroute(f publicip.Fetcher) *Traceroute { return &Traceroute{publicIPFetcher: f} }
